@@ -15,6 +15,7 @@ import (
 // H executes op lines against the real ecs package and prints the canonical trace.
 type H struct {
 	w        *ecs.World
+	side     *ecs.World // a second world that only ever sees rejected registrations
 	cscratch []ecs.Comp // one buffer for every component list handed to a variadic API (a client may do the same)
 	u        ecs.Unsafe
 	out      *bufio.Writer
@@ -75,7 +76,53 @@ type filterObj struct {
 
 type obsObj struct {
 	o      *ecs.Observer
+	t      typedObserver // set instead of o for an observer built with Observe1-4
+	reg    bool          // registered in the harness's world (as far as the harness knows)
 	script []string
+}
+
+func (oo *obsObj) register(w *ecs.World) {
+	if oo.t != nil {
+		oo.t.Register(w)
+	} else {
+		oo.o.Register(w)
+	}
+}
+
+func (oo *obsObj) unregister(w *ecs.World) {
+	if oo.t != nil {
+		oo.t.Unregister(w)
+	} else {
+		oo.o.Unregister(w)
+	}
+}
+
+// regMain / unregMain: (un)registration in the harness's world, with the bookkeeping for `elsewhere`
+func (h *H) regMain(oo *obsObj) {
+	oo.register(h.w)
+	oo.reg = true
+}
+
+func (h *H) unregMain(oo *obsObj) {
+	oo.unregister(h.w)
+	oo.reg = false
+}
+
+// elsewhere: an observer that is registered in the harness's world is offered to ANOTHER world, where
+// the component types have other IDs.  The call must be rejected ("already registered") and leave the
+// observer as it is — in particular the typed observers must keep addressing the first world (defect
+// D25).  Nothing is logged.  Should the registration succeed (the harness's bookkeeping can be behind
+// after a Reset inside a callback), it is undone.
+func (h *H) elsewhere(oo *obsObj) {
+	if !oo.reg {
+		return
+	}
+	if h.side == nil {
+		h.side = ecs.NewWorld(4)
+	}
+	if try(func() { oo.register(h.side) }) == "" {
+		_ = try(func() { oo.unregister(h.side) })
+	}
 }
 
 type queryObj struct {
@@ -529,6 +576,8 @@ func (h *H) fmtLog(r logRec) string {
 			res = r.class
 		}
 		return fmt.Sprintf("  act %s %s", r.s, res)
+	case "badptr":
+		return fmt.Sprintf("  badptr o%d %s", r.a, h.entName(r.e))
 	case "fn":
 		return fmt.Sprintf("  fn %s locked=%d %s", h.entName(r.e), b2i(r.locked), h.fmtComps(r.comps))
 	}
@@ -648,14 +697,14 @@ func (h *H) runProbe(self int, e ecs.Entity, p string) {
 		o, _ := numOf(parts[1])
 		class := "obsNotRegistered"
 		if oo, ok := h.obs[o]; ok {
-			class = try(func() { oo.o.Unregister(h.w) })
+			class = try(func() { h.unregMain(oo) })
 		}
 		h.log = append(h.log, logRec{kind: "act", s: "unreg", class: class})
 	case "reg":
 		o, _ := numOf(parts[1])
 		class := "obsNotRegistered"
 		if oo, ok := h.obs[o]; ok {
-			class = try(func() { oo.o.Register(h.w) })
+			class = try(func() { h.regMain(oo) })
 		}
 		h.log = append(h.log, logRec{kind: "act", s: "reg", class: class})
 	case "trynew":
